@@ -21,3 +21,18 @@ package types
 //@ contract interface IBCModule.OnTimeoutPacket
 //@   modifies world(ctx), calls OnTimeoutPacket
 //@   ensures calls("OnTimeoutPacket") == old(calls("OnTimeoutPacket")) + 1
+
+// ---- v1 port router: Keys() is a sorted enumeration of exactly the registered names, hence a function of
+// the key set (not of registration or map iteration order)
+
+//@ contract (*Router).Keys
+//@   pure
+//@   invariant #1 collected: len(keys) == mappos1 && forall j int :: 0 <= j && j < mappos1 ==> keys[j] == mapseq1[j]
+//@   ensures sorted: forall i int, j int :: 0 <= i && i < j && j < len(result) ==> result[i] <= result[j]
+//@   ensures sound: forall i int :: 0 <= i && i < len(result) ==> inmap(rtr.routes, result[i])
+//@   ensures complete: forall k string :: inmap(rtr.routes, k) ==> exists i int :: 0 <= i && i < len(result) && result[i] == k
+
+//@ contract (*Router).Route
+//@   ensures found: result1 == inmap(rtr.routes, module)
+//@   ensures value: result1 ==> result0 == rtr.routes[module]
+//@   ensures none: !result1 ==> isNil(result0)
